@@ -7,7 +7,7 @@ CONSTANTS
   LogEnd = 0
   ParStart = 1
   NAtt = 3
-  MaxFaults = 2
+  MaxFaults = 0
   FaultBy <- LinkFaults
   MaxPings = 1
   UseSync = FALSE
